@@ -107,6 +107,15 @@ def classify_request_diff(b, method, path, sent, got, locs):
     return "request/%s/%s" % (loc, type(sent).__name__)
 
 
+def c04_absent(b, att, value):
+    """the value leaves an optional array/map/bytes attribute with MinLength >= 1 unset (the defect recorded under C04)"""
+    from . import c04
+    try:
+        return bool(att) and isinstance(value, dict) and c04.absent_optional_collection(b.schema, att, value)
+    except Exception:
+        return False
+
+
 def chosen_response(method, result):
     """the success response the design selects for this result: the first whose tag matches, else the untagged one"""
     resps = (method.get("http") or {}).get("responses") or []
@@ -151,6 +160,9 @@ def judge_call(b, svc, method, cmd, obs):
                 return [("request/cookie/value-outside-cookie-octets", "%s: cookie value %r is altered by net/http's sanitiser and then fails validation: %s" % (name, v, ce[:120]))]
             if l == "header" and isinstance(v, str) and (not v.isascii() or v != v.strip() or any(ord(ch) < 32 for ch in v)):
                 return [("request/header/value-outside-field-content", "%s: header value %r is altered in transport and then fails validation: %s" % (name, v, ce[:120]))]
+        if w.get("status") == 400 and "invalid_length" in (w.get("resp_body") or "") and c04_absent(b, method["payload"], payload):
+            return [("request/absent-optional-collection-with-min-length-rejected",
+                     "%s: a payload that leaves an optional array/map with MinLength unset is answered 400 invalid_length" % name)]
         return [("request/not-delivered/status-%s" % w.get("status"), "%s: valid payload %s did not reach the service: %s" % (name, json.dumps(payload)[:200], ce[:200]))]
     sent, got = canon(payload or {}), canon(obs.get("server_payload") or {})
     for path, s, g in diff_paths(sent, got):
@@ -177,6 +189,9 @@ def judge_call(b, svc, method, cmd, obs):
             elif mm and mm.group(2) == "cookie" and isinstance(sent_v, str) and not COOKIE_OCTET.match(sent_v):
                 out.append(("response/cookie/value-outside-cookie-octets",
                             "%s: result attribute %s = %r carried in a response cookie is dropped or altered by net/http's cookie sanitiser" % (name, mm.group(1), sent_v)))
+            elif "must be greater or equal than" in msg and "len=0" in msg and c04_absent(b, method["result"], cmd["script"]["result"]):
+                out.append(("response/absent-optional-collection-with-min-length-rejected",
+                            "%s: a result that leaves an optional array/map with MinLength unset is refused by the generated client: %s" % (name, msg[:160])))
             elif isinstance(want, dict) and any(rlocs.get(k) == "cookie" and isinstance(v, str) and not COOKIE_OCTET.match(v)
                                                 for k, v in (cmd["script"]["result"] or {}).items()):
                 bad = [k for k, v in (cmd["script"]["result"] or {}).items() if rlocs.get(k) == "cookie" and isinstance(v, str) and not COOKIE_OCTET.match(v)]
